@@ -242,6 +242,13 @@ def coq_compare(name, header, runner, cases, shard=400, jobs=8):
     inside Coq with vm_compute; only the indices of disagreeing cases are printed."""
     cdir = os.path.join(COQ, "cases")
     os.makedirs(cdir, exist_ok=True)
+    mods = []
+    for m in re.finditer(r"From\s+Bingo\s+Require\s+(?:Import|Export)\s+([^.]*(?:\.[A-Za-z_][A-Za-z0-9_]*)*)\.", header):
+        mods += [x.replace(".", "/") + ".vo" for x in m.group(1).split()]
+    if mods:
+        rc, out, _ = make(mods)
+        if rc != 0:
+            return [("shard", -1)], "model does not compile: " + out[-2000:]
     for f in os.listdir(cdir):
         if f.startswith(name + "_"):
             os.remove(os.path.join(cdir, f))
